@@ -526,7 +526,7 @@ theorem WaitInv.moves {s s' : St} {t : Tid} {p q : Pc} (h : WaitInv s) (m : Move
 theorem popIdle_nil (s : St) (k : Key) : popIdle s k [] = (none, []) := rfl
 
 theorem tryGet_false {s : St} {t : Tid} {x : Task} {b : Bool} (h : (tryGet s t x b).2 = false) :
-    (tryGet s t x b).1 = { s with idle := (popIdle s x.key s.idle).2 } := by
+    (tryGet s t x b).1 = closeMany { s with idle := (popIdle s x.key s.idle).2 } (popDropped s x.key s.idle) := by
   unfold tryGet at *; dsimp only at *; split at h
   · next e => simp [e]
   · cases h
@@ -536,16 +536,19 @@ theorem inv_tryGet {s : St} {t : Tid} {x : Task} (h : Inv s) (hw : WaitInv s) (h
     Inv (tryGet s t x b).1 ∧ WaitInv (tryGet s t x b).1 := by
   have hidle : s.closed = true → (popIdle s x.key s.idle).2 = [] := by
     intro hc; rw [(h.closed_empty hc).2.2]; rfl
+  have cm : SameCore { s with idle := (popIdle s x.key s.idle).2 }
+      (closeMany { s with idle := (popIdle s x.key s.idle).2 } (popDropped s x.key s.idle)) := by
+    constructor <;> intros <;> rfl
   unfold tryGet; dsimp only; split
-  · exact ⟨h.setIdle _ hidle, fun u hu => hw u hu⟩
+  · exact ⟨(h.setIdle _ hidle).core cm, fun u hu => hw u hu⟩
   · next c hc =>
     have hcl : s.closed = false := by
       cases e : s.closed
       · rfl
       · rw [(h.closed_empty e).2.2] at hc; cases hc
-    have m : Moves s (setTask (acquire { s with idle := (popIdle s x.key s.idle).2 } x.key (.conn c)) t
-        { x with pc := .holding c, tr := suspendAt { s with idle := (popIdle s x.key s.idle).2 } 0 (.reuse b) }) t x.pc (.holding c) :=
-      Moves.mk' (y := { x with pc := .holding c, tr := suspendAt { s with idle := (popIdle s x.key s.idle).2 } 0 (.reuse b) }) hx rfl rfl rfl rfl rfl
+    have m : Moves s (setTask (acquire (closeMany { s with idle := (popIdle s x.key s.idle).2 } (popDropped s x.key s.idle)) x.key (.conn c)) t
+        { x with pc := .holding c, tr := suspendAt (closeMany { s with idle := (popIdle s x.key s.idle).2 } (popDropped s x.key s.idle)) 0 (.reuse b) }) t x.pc (.holding c) :=
+      Moves.mk' (y := { x with pc := .holding c, tr := suspendAt (closeMany { s with idle := (popIdle s x.key s.idle).2 } (popDropped s x.key s.idle)) 0 (.reuse b) }) hx rfl rfl rfl rfl rfl
     refine ⟨h.add m hcl (by rw [keyOf_of_get hx]; exact hcap) hn (Or.inr ⟨c, rfl, rfl⟩) rfl ?_, ?_⟩
     · rw [keyOf_of_get hx]; rfl
     · exact hw.moves m (fun u hu => Or.inl hu) (Or.inl htw)
@@ -983,7 +986,14 @@ theorem inv_step {s : St} (h : Inv s) (hw : WaitInv s) (l : Label) :
               cases e : s.closed
               · exact e
               · exact absurd e hcl
-            exact ⟨h1.1.setIdle _ (fun hc => by rw [hcl'] at hc; cases hc), fun u hu => h1.2 u hu⟩
+            have cu : SameCore { (releaseAcquired (setTask s t { x with pc := .done }) x.key (.conn c)) with
+                  idle := (releaseAcquired (setTask s t { x with pc := .done }) x.key (.conn c)).idle ++ [c] }
+                { (releaseAcquired (setTask s t { x with pc := .done }) x.key (.conn c)) with
+                  idle := (releaseAcquired (setTask s t { x with pc := .done }) x.key (.conn c)).idle ++ [c], timer := true,
+                  conns := (releaseAcquired (setTask s t { x with pc := .done }) x.key (.conn c)).conns.modify c
+                    (fun y => { y with usedAt := (releaseAcquired (setTask s t { x with pc := .done }) x.key (.conn c)).now }) } := by
+              constructor <;> intros <;> rfl
+            exact ⟨(h1.1.setIdle _ (fun hc => by rw [hcl'] at hc; cases hc)).core cu, fun u hu => h1.2 u hu⟩
           · have cc : SameCore (releaseAcquired (setTask s t { x with pc := .done }) x.key (.conn c))
                 (closeConn (releaseAcquired (setTask s t { x with pc := .done }) x.key (.conn c)) c) := by
               constructor <;> intros <;> first | rfl | simp [closeConn]
@@ -1009,9 +1019,19 @@ theorem inv_step {s : St} (h : Inv s) (hw : WaitInv s) (l : Label) :
         · exact ⟨h, hw⟩
       · exact ⟨h, hw⟩
     · exact ⟨h, hw⟩
+  | advance d =>
+    have cc : SameCore s { s with now := s.now + d } := by constructor <;> intros <;> rfl
+    exact ⟨h.core cc, hw.core cc (fun u hu => hu)⟩
+  | sweep =>
+    simp only [step]; split
+    · have h1 := h.setIdle (s.idle.filter (usable s)) (fun hc => by rw [(h.closed_empty hc).2.2]; rfl)
+      have cc : SameCore { s with idle := s.idle.filter (usable s) } (cleanup s) := by
+        constructor <;> intros <;> rfl
+      exact ⟨h1.core cc, fun u hu => hw u hu⟩
+    · exact ⟨h, hw⟩
 
-theorem inv_init (limit lph : Nat) (keys : List Key) (mask : Nat) :
-    Inv (init limit lph keys mask) ∧ WaitInv (init limit lph keys mask) := by
+theorem inv_init (limit lph : Nat) (keys : List Key) (mask ka : Nat) :
+    Inv (init limit lph keys mask ka) ∧ WaitInv (init limit lph keys mask ka) := by
   refine ⟨?_, ?_⟩
   · constructor
     · intro _ t r hp
@@ -1084,13 +1104,29 @@ theorem connOpen_closeConn (s : St) (c d : Cid) :
   · have : ¬ d = c := fun e' => e e'.symm
     simp [e, this]
 
+theorem connOpen_closeMany (s : St) (l : List Cid) (c : Cid) :
+    connOpen (closeMany s l) c = (if c ∈ l then false else connOpen s c) := by
+  unfold connOpen closeMany
+  simp only [List.getElem?_mapIdx]
+  cases h : s.conns[c]? with
+  | none => simp
+  | some x => by_cases e : c ∈ l <;> simp [e]
+
+theorem connOpen_setUsed (s : St) (c d n : Nat) :
+    connOpen { s with conns := s.conns.modify c (fun y => { y with usedAt := n }) } d = connOpen s d := by
+  unfold connOpen
+  simp only [List.getElem?_modify]
+  by_cases e : c = d
+  · subst e; cases h : s.conns[c]? <;> simp [h]
+  · simp [e]
+
 theorem popIdle_spec (s : St) (k : Key) (l : List Cid) :
-    (∀ c ∈ l, c ∈ (popIdle s k l).2 ∨ (popIdle s k l).1 = some c ∨ connOpen s c = false)
+    (∀ c ∈ l, c ∈ (popIdle s k l).2 ∨ (popIdle s k l).1 = some c ∨ c ∈ popDropped s k l)
     ∧ (∀ c ∈ (popIdle s k l).2, c ∈ l) := by
   induction l with
   | nil => simp [popIdle]
   | cons a t ih =>
-    unfold popIdle
+    unfold popIdle popDropped
     split
     · split
       · next ho =>
@@ -1103,8 +1139,11 @@ theorem popIdle_spec (s : St) (k : Key) (l : List Cid) :
         refine ⟨?_, fun c hc => List.mem_cons_of_mem _ (ih.2 c hc)⟩
         intro c hc
         rcases List.mem_cons.mp hc with e | e
-        · subst e; right; right; simpa using ho
-        · exact ih.1 c e
+        · subst e; right; right; simp
+        · rcases ih.1 c e with h1 | h1 | h1
+          · exact Or.inl h1
+          · exact Or.inr (Or.inl h1)
+          · exact Or.inr (Or.inr (List.mem_cons_of_mem _ h1))
     · refine ⟨?_, ?_⟩
       · intro c hc
         rcases List.mem_cons.mp hc with e | e
@@ -1121,28 +1160,35 @@ theorem popIdle_spec (s : St) (k : Key) (l : List Cid) :
 theorem oinv_tryGet {s : St} {t : Tid} {x : Task} {b : Bool} (h : OInv s) (hq : QInv s) :
     OInv (tryGet s t x b).1 ∧ QInv (tryGet s t x b).1 := by
   have sp := popIdle_spec s x.key s.idle
+  have key : ∀ c, connOpen (closeMany { s with idle := (popIdle s x.key s.idle).2 } (popDropped s x.key s.idle)) c = true →
+      connOpen s c = true ∧ c ∉ popDropped s x.key s.idle := by
+    intro c hc
+    rw [connOpen_closeMany] at hc
+    split at hc
+    · cases hc
+    · next ne => exact ⟨hc, ne⟩
   unfold tryGet; dsimp only; split
   · next hn =>
     refine ⟨?_, hq⟩
     intro c hc
-    rcases h c hc with h1 | h1 | h1
+    obtain ⟨hc', hnd⟩ := key c hc
+    rcases h c hc' with h1 | h1 | h1
     · rcases sp.1 c h1 with h2 | h2 | h2
       · exact Or.inl h2
       · rw [hn] at h2; cases h2
-      · have : connOpen s c = true := hc
-        rw [h2] at this; cases this
+      · exact absurd h2 hnd
     · exact Or.inr (Or.inl h1)
     · exact Or.inr (Or.inr h1)
   · next c0 hn =>
     refine ⟨?_, hq⟩
     intro c hc
-    have hc' : connOpen s c = true := hc
+    obtain ⟨hc', hnd⟩ := key c hc
     show c ∈ (popIdle s x.key s.idle).2 ∨ Slot.conn c ∈ sinsert (Slot.conn c0) s.acquired ∨ c ∈ s.pendingNew
     rcases h c hc' with h1 | h1 | h1
     · rcases sp.1 c h1 with h2 | h2 | h2
       · exact Or.inl h2
       · rw [hn] at h2; cases h2; exact Or.inr (Or.inl (mem_sinsert.mpr (Or.inl rfl)))
-      · rw [h2] at hc'; cases hc'
+      · exact absurd h2 hnd
     · exact Or.inr (Or.inl (mem_sinsert.mpr (Or.inr h1)))
     · exact Or.inr (Or.inr h1)
 
@@ -1584,7 +1630,11 @@ theorem oinv_step {s : St} (hi : Inv s) (h : OInv s) (hq : QInv s) (l : Label) :
           split
           · refine ⟨?_, q1⟩
             intro d hd
-            have hd' : connOpen s d = true := by rw [← connOpen_congr (s := s) (s' := releaseAcquired (setTask s t { x with pc := .done }) x.key (.conn c)) f1]; exact hd
+            have hd0 : connOpen (releaseAcquired (setTask s t { x with pc := .done }) x.key (.conn c)) d = true := by
+              have := connOpen_setUsed (releaseAcquired (setTask s t { x with pc := .done }) x.key (.conn c)) c d
+                (releaseAcquired (setTask s t { x with pc := .done }) x.key (.conn c)).now
+              rw [← this]; exact hd
+            have hd' : connOpen s d = true := by rw [← connOpen_congr (s := s) (s' := releaseAcquired (setTask s t { x with pc := .done }) x.key (.conn c)) f1]; exact hd0
             show d ∈ (releaseAcquired (setTask s t { x with pc := .done }) x.key (.conn c)).idle ++ [c] ∨ _ ∨
               d ∈ (releaseAcquired (setTask s t { x with pc := .done }) x.key (.conn c)).pendingNew
             rw [f2, f6]
@@ -1629,6 +1679,29 @@ theorem oinv_step {s : St} (hi : Inv s) (h : OInv s) (hq : QInv s) (l : Label) :
         · exact ⟨h, hq⟩
       · exact ⟨h, hq⟩
     · exact ⟨h, hq⟩
+  | advance d => exact ⟨h.of_eq rfl rfl rfl rfl, hq⟩
+  | sweep =>
+    simp only [step]; split
+    · refine ⟨?_, hq⟩
+      intro c hc
+      have hc1 : connOpen (closeMany { s with idle := s.idle.filter (usable s), timer := !(s.idle.filter (usable s)).isEmpty }
+          (s.idle.filter (fun c => !usable s c))) c = true := hc
+      rw [connOpen_closeMany] at hc1
+      split at hc1
+      · cases hc1
+      · next ne =>
+        have hc' : connOpen s c = true := hc1
+        show c ∈ s.idle.filter (usable s) ∨ Slot.conn c ∈ s.acquired ∨ c ∈ s.pendingNew
+        rcases h c hc' with h1 | h1 | h1
+        · left
+          rw [List.mem_filter]
+          refine ⟨h1, ?_⟩
+          cases hu : usable s c
+          · exact absurd (List.mem_filter.mpr ⟨h1, by simp [hu]⟩) ne
+          · rfl
+        · exact Or.inr (Or.inl h1)
+        · exact Or.inr (Or.inr h1)
+    · exact ⟨h, hq⟩
 
 theorem oinv_run {s : St} (hi : Inv s) (hw : WaitInv s) (h : OInv s) (hq : QInv s) (ls : List Label) :
     OInv (run Fixes.all s ls) ∧ QInv (run Fixes.all s ls) := by
@@ -1639,8 +1712,8 @@ theorem oinv_run {s : St} (hi : Inv s) (hw : WaitInv s) (h : OInv s) (hq : QInv 
     have o := oinv_step hi h hq l
     exact ih i.1 i.2 o.1 o.2
 
-theorem oinv_init (limit lph : Nat) (keys : List Key) (mask : Nat) :
-    OInv (init limit lph keys mask) ∧ QInv (init limit lph keys mask) := by
+theorem oinv_init (limit lph : Nat) (keys : List Key) (mask ka : Nat) :
+    OInv (init limit lph keys mask ka) ∧ QInv (init limit lph keys mask ka) := by
   refine ⟨?_, ?_⟩
   · intro c hc; simp [connOpen, init] at hc
   · intro hc; simp [init] at hc
